@@ -438,6 +438,53 @@ pub fn lig_one_call_sizes(rec: &mut Rec) {
     }
 }
 
+
+/// Ligero sizes inside private rayon pools: commitment and proof of a polynomial have the size (and the matrix shape)
+/// they have on the calling thread, whatever the size of the pool the commit / open calls run in (2, 16 and 256
+/// threads; 1024, 4096 and 16384 coefficients), and stay within 4x of the best shape.
+pub fn lig_pool_sizes(rec: &mut Rec) {
+    type S = SLig;
+    let cfg = KeyCfg::uni(1 << 20, 1 << 20, 1, None);
+    let keys = match build_keys::<S>(&cfg, rec.seed) {
+        Ok(k) => k,
+        Err(_) => return,
+    };
+    let z = <S as Sch>::points(&cfg, rec.seed)[0].1.clone();
+    for n in [1024usize, 4096, 16384] {
+        for threads in [2usize, 16, 256] {
+            let id = format!("LIG/size/pool/N={}/threads={}", n, threads);
+            if !rec.take(&id) {
+                continue;
+            }
+            rec.dim("scheme", "LIG");
+            rec.op(4);
+            let p = dense_uni::<S>(n - 1, rec.seed).unwrap();
+            let seed = rec.seed;
+            let (kr, zr) = (&keys, &z);
+            let work = move || -> Option<(usize, MMeta)> {
+                let c = commit_set::<S>(kr, vec![lp::<S>("p", p, None, None)], seed, 0).ok()?;
+                let s1 = open_single::<S>(kr, &c, &[0], zr, 0, seed, 0).ok()?;
+                let bp: BPf<S> = vec![s1.proof.clone()].into();
+                let cm: MComm = convert(c.comms[0].commitment());
+                Some((sz(&bp).0, cm.metadata))
+            };
+            let alone = {
+                let w = work.clone();
+                w()
+            };
+            let inpool = with_threads(threads, work);
+            let ok = match (&alone, &inpool) {
+                (Some((a, ma)), Some((b, mb))) => a == b && ma.n_rows == mb.n_rows && ma.n_cols == mb.n_cols,
+                _ => false,
+            };
+            rec.class(if ok { "size-law-holds" } else { "size-law-broken" });
+            if !ok {
+                viol(rec, "LIG", "proof-size", &id, format!("{} coefficients: proof size / matrix shape on the calling thread {:?}, inside a pool of {} threads {:?}", n, alone.as_ref().map(|x| (x.0, x.1.n_rows, x.1.n_cols)), threads, inpool.as_ref().map(|x| (x.0, x.1.n_rows, x.1.n_cols))));
+            }
+        }
+    }
+}
+
 /// a dense univariate polynomial of the given degree for the (only) univariate hash-based adapter
 fn dense_uni<S: Sch<F = Fr381>>(deg: usize, seed: u64) -> Option<S::P> {
     let r = rho_stream::<Fr381>(seed, 9, deg + 1);
@@ -540,6 +587,7 @@ pub fn run(rec: &mut Rec) {
     group_scheme::<SHyr>(rec, (1..=if t { 6 } else { 5 }).map(|k| KeyCfg::ml(2 * k)).collect());
     hash_scheme::<SLig>(rec, t);
     lig_one_call_sizes(rec);
+    lig_pool_sizes(rec);
     hash_scheme::<SMll>(rec, t);
     hash_scheme::<SBrk>(rec, t);
     special(rec);
